@@ -215,6 +215,9 @@ func init() {
 		return nil
 	}
 	execThrough["github.com/ethereum/go-ethereum/core/types.NewMessage"] = true
+	execThrough["github.com/ethereum/go-ethereum/common/math.BigMax"] = true
+	execThrough["github.com/tharsis/ethermint/types.ValidateAddress"] = true
+	execThrough["github.com/ethereum/go-ethereum/common/math.BigMin"] = true
 	for _, m := range []string{"From", "To", "Data", "Nonce", "Value", "Gas", "GasPrice", "GasFeeCap", "GasTipCap", "AccessList", "IsFake"} {
 		execThrough["(github.com/ethereum/go-ethereum/core/types.Message)."+m] = true
 	}
